@@ -8,7 +8,7 @@ def witness_for(g, lr, L, verbose=False, want='accept'):
     return 'OUT[O_NMSG] >= 1 && !R.ok'
 
 def run_parse_property(pid, tier, seed, sel, asserts, rule, outside, assumptions, verbose=0, ws=0, nl=0, want='accept', timeout=None, mem_gb=None,
-                       validate_cf=True, wit_every=3, extra_body='', tag='', finish=True, R=None, defer=None, variant='plain', ctxkind=0):
+                       validate_cf=True, wit_every=3, extra_body='', tag='', finish=True, R=None, defer=None, variant='plain', ctxkind=0, mode='functional'):
     """defer: a list; when given the cases are appended to it instead of being run (run them later with run_deferred)"""
     R = R or report.Run(pid, tier, seed)
     wd = vlib.workdir(pid, fresh=not bool(tag) and not defer)
@@ -21,7 +21,7 @@ def run_parse_property(pid, tier, seed, sel, asserts, rule, outside, assumptions
             if not ok: R.inconclusive.append('reference LR(1) disagrees with Earley on %s for %r' % (g.name, toks))
             R.extra.setdefault('oracle_validation', {})[g.name] = {'strings_compared_with_earley': n}
         for L in Ls:
-            cases.append(parsecheck.ParseCase(wd, g, L, asserts, ws=ws, nl=nl, verbose=verbose, lr=lr, tag=tag, extra_body=extra_body, variant=variant, ctxkind=ctxkind,
+            cases.append(parsecheck.ParseCase(wd, g, L, asserts, ws=ws, nl=nl, verbose=verbose, lr=lr, tag=tag, extra_body=extra_body, variant=variant, ctxkind=ctxkind, mode=mode,
                                               witness=witness_for(g, lr, L, bool(verbose), want)))
     wit = [c for i, c in enumerate(cases) if tier == 'thorough' or i % wit_every == 0]
     R.outside += [x for x in outside if x not in R.outside]; R.assumptions += [x for x in assumptions if x not in R.assumptions]
